@@ -48,12 +48,6 @@ def _has_empty_reduced_axis(case):
 def _classify_c03(name, case, msg):
     fmt = case.get("format", "")
     shp = case.get("shape", [])
-    if _has_empty_reduced_axis(case):
-        red = case.get("reduction")
-        uf = case.get("ufunc", "")
-        idem = red in ("min", "max", "any", "all", "nanmin", "nanmax") or (red == "ufunc.reduce" and uf not in ("add", "multiply"))
-        if idem and ("zero-size array" in msg or "values differ" in msg):
-            return "F-reduce-empty-axis"
     if fmt.startswith("gcxs") and 0 in shp and name in ("var", "std") and "AttributeError" in msg:
         return "F-gcxs-empty-var"
     return None
